@@ -20,12 +20,16 @@ Absent == [tag |-> "nil", s |-> "", n |-> 0, lo |-> 0, hi |-> 0]
 
 \* deadline interval of an expiry set by a step in [a, b]:  ttl = 0 none, abs = exact instant
 Exp(ttl, abs, a, b) == IF ttl = 0 THEN [lo |-> INF, hi |-> INF]
-                       ELSE IF abs THEN [lo |-> ttl, hi |-> ttl]
+                       \* an absolute deadline travels as (fractional) seconds or milliseconds and is stored
+                       \* in whole milliseconds: one millisecond either side
+                       ELSE IF abs THEN [lo |-> ttl - 1, hi |-> ttl + 1]
                        ELSE [lo |-> a + ttl, hi |-> b + ttl]
 
 CanBePresent(e, a) == e.tag # "nil" /\ a < e.hi
 CanBeAbsent(e, b)  == e.tag = "nil" \/ b >= e.lo
 
+\* default TTL of the DMap (0 = none), carried by the operations that fall back to it
+Dttl(e) == IF "dttl" \in DOMAIN e THEN e.dttl ELSE 0
 StrEnt(v, x) == [tag |-> "str", s |-> v, n |-> 0, lo |-> x.lo, hi |-> x.hi]
 NumEnt(n, x) == [tag |-> "num", s |-> "", n |-> n, lo |-> x.lo, hi |-> x.hi]
 \* what a read returns: strings by value, numbers by value
@@ -43,11 +47,14 @@ Apply(e, cur, p, a, b) ==
     [] e.op = "del" -> R(Absent, "ok", "", 1)
     [] e.op = "expire" -> IF p THEN R([cur EXCEPT !.lo = a + e.ttl, !.hi = b + e.ttl], "ok", "", 0)
                           ELSE R(cur, "notfound", "", 0)
-    [] e.op = "getput" -> [reg |-> StrEnt(e.v, Exp(0, FALSE, a, b))] @@
+    [] e.op = "getput" -> [reg |-> StrEnt(e.v, Exp(Dttl(e), FALSE, a, b))] @@
                             (IF p THEN ValOf(cur) ELSE [ret |-> "none", v |-> "", n |-> 0])
     \* Incr / Decr / IncrByFloat (delta in fixed-point units): expiry is kept
+    \* (the implementation re-installs the remaining ttl: the deadline may move by at most the
+    \*  duration of the call itself, e.dur)
     [] e.op = "incr" -> LET base == IF p /\ cur.tag = "num" THEN cur.n ELSE 0
-                            x == IF p THEN cur ELSE Exp(0, FALSE, a, b) IN
+                            x == IF p THEN [lo |-> cur.lo, hi |-> IF cur.hi = INF THEN INF ELSE cur.hi + e.dur]
+                                 ELSE Exp(Dttl(e), FALSE, a, b) IN
                         R(NumEnt(base + e.d, x), "num", "", base + e.d)
     [] e.op = "lock" -> IF p THEN R(cur, "notacquired", "", 0)
                         ELSE R(StrEnt(e.tok, Exp(e.ttl, FALSE, a, b)), "ok", "", 0)
